@@ -5009,6 +5009,8 @@ class Symbol:
                         self._write_to_conf = True
                         self._has_active_indirect_set = True
                     else:
+                        # An unusable literal is no active 'set': the flag must not keep an earlier evaluation's value
+                        self._has_active_indirect_set = False
                         num2str = str if base == 10 else hex
                         log.note(
                             f"indirectly set value {candidate_val.str_value} on "
@@ -5173,6 +5175,8 @@ class Symbol:
                         self._write_to_conf = True
                         self._has_active_indirect_set = True
                     else:
+                        # An unusable literal is no active 'set': the flag must not keep an earlier evaluation's value
+                        self._has_active_indirect_set = False
                         log.note(
                             f"indirectly set value {candidate_val.str_value} on "
                             f"{escape(self.name_and_loc)} (by {escape(src.name_and_loc)}) is not a valid float."
